@@ -39,6 +39,9 @@ enum Tok {
     Data { text: String, elems: Vec<(usize, &'static str, u64, &'static str)> },
     Label { text: String, level: usize, name: &'static str },
     Const { text: String, name: &'static str, value: u64, noemit: bool },
+    /// a constant whose value is not an integer (boolean / string): it cannot be listed as a number, but it still
+    /// opens a scope and its nested children must be listed
+    OtherConst { text: String, name: &'static str },
     Res { text: String, n: u64 },
     Align { text: String, n: u64 },
     Addr { text: String, x: u64 },
@@ -48,7 +51,7 @@ enum Tok {
 impl Tok {
     fn text(&self) -> &str {
         match self {
-            Tok::Instr { text, .. } | Tok::Data { text, .. } | Tok::Label { text, .. } | Tok::Const { text, .. } | Tok::Res { text, .. } | Tok::Align { text, .. } | Tok::Addr { text, .. } | Tok::Bank { text, .. } => text,
+            Tok::Instr { text, .. } | Tok::Data { text, .. } | Tok::Label { text, .. } | Tok::Const { text, .. } | Tok::OtherConst { text, .. } | Tok::Res { text, .. } | Tok::Align { text, .. } | Tok::Addr { text, .. } | Tok::Bank { text, .. } => text,
         }
     }
 }
@@ -84,6 +87,8 @@ fn common_toks() -> Vec<Tok> {
         Tok::Label { text: s("..m:"), level: 2, name: "m" },
         Tok::Const { text: s("k = 5"), name: "k", value: 5, noemit: false },
         Tok::Const { text: s("#const(noemit) h = 7"), name: "h", value: 7, noemit: true },
+        Tok::OtherConst { text: s("t = 1 == 1"), name: "t" },
+        Tok::OtherConst { text: s("s = \"ab\""), name: "s" },
         Tok::Data { text: s("#d8 1, 0xc7"), elems: vec![(4, "1", 8, "00000001"), (7, "0xc7", 8, "11000111")] },
         Tok::Data { text: s("#d16 0x8d2f"), elems: vec![(5, "0x8d2f", 16, "1000110100101111")] },
         Tok::Data { text: s("#d3 0b101"), elems: vec![(4, "0b101", 3, "101")] },
@@ -247,6 +252,7 @@ fn model(cfg: &Config, toks: &[&Tok], locs: &[Loc]) -> Result<Expect, String> {
     let mut rows: Vec<ExpRow> = vec![];
     let mut pending: Vec<(usize, Enc)> = vec![];
     let mut syms: Vec<ExpSym> = vec![];
+    let mut other_names: std::collections::BTreeSet<String> = std::collections::BTreeSet::new();
     let declare = |syms: &mut Vec<ExpSym>, s: ExpSym| -> Result<(), String> {
         if syms.iter().any(|x| x.name == s.name) {
             return Err(format!("duplicate symbol {}", s.name));
@@ -297,6 +303,13 @@ fn model(cfg: &Config, toks: &[&Tok], locs: &[Loc]) -> Result<Expect, String> {
                 };
                 declare(&mut syms, ExpSym { name: full, value, label: Some((cur, pos[cur])), noemit: false })?;
                 rows.push(ExpRow { offset: b.outp.map(|o| o + pos[cur]), addr: value, size: 0, bits: String::new(), text: text.clone(), loc: loc.clone(), bank: cur });
+            }
+            Tok::OtherConst { name, .. } => {
+                if !other_names.insert(name.to_string()) || syms.iter().any(|x| x.name == *name) {
+                    return Err("duplicate symbol".into());
+                }
+                parent0 = Some(name.to_string());
+                parent1 = None;
             }
             Tok::Const { name, value, noemit, .. } => {
                 // a top-level constant opens a scope for following nested labels (tests/driver/ok_format_symbol_noemit)
